@@ -60,7 +60,8 @@ long verif_os_syscall(long nr, ...) {
     return sim_os_entropy(buf, len, 0);
 }
 int verif_os_open(const char *path, int flags, ...) { (void)flags; return sim_os_open(path); }
-ssize_t verif_os_read(int fd, void *buf, size_t n) { (void)fd; return (ssize_t)sim_os_entropy(buf, n, 2); }
+extern long sim_os_read(int fd, void *buf, size_t n);
+ssize_t verif_os_read(int fd, void *buf, size_t n) { return (ssize_t)sim_os_read(fd, buf, n); }
 int verif_os_close(int fd) { return sim_os_close(fd); }
 
 /* ---- allocator seam for library objects (objcopy --redefine-sym) */
